@@ -321,9 +321,9 @@ theorem neutralize_donors_exact (m : Mol) (L : Labels) (comps : List (List Nat))
 
 /-- **every acceptor is an anion**: on a well-formed molecule graph (C07's `Graph.WF`) with direction-independent bond tests,
     every atom `matchFirstAtoms baseStripped` collects is the image of pattern atom 1 in an embedding of one of the six regenerated
-    base patterns (C07's `getMapping_exact`), and pattern atom 1 carries `−1` in all of them -/
+    base patterns (C07's soundness of `_get_mapping`, `getMapping_sound`), and pattern atom 1 carries `−1` in all of them -/
 theorem neutralize_acceptors_are_anions (m : Mol) (L : Labels) (comps : List (List Nat)) (as : List Nat)
-    (hwf : (graphOfMol m).WF = true) (hsym : ∀ p ∈ baseStripped, Props.C07.BondSymm (bondOk p m L))
+    (hwf : (graphOfMol m).WF = true) (hsym : ∀ p ∈ baseStripped, BondSymm (bondOk p m L))
     (h : matchFirstAtoms baseStripped m L comps = some as) :
     ∀ x ∈ as, ∃ a, m.atom? x = some a ∧ a.charge = -1 :=
   acceptors_are_anions m L comps as hwf hsym h
@@ -333,7 +333,7 @@ theorem neutralize_acceptors_are_anions (m : Mol) (L : Labels) (comps : List (Li
     checker accepts for `m`, `_neutralize` of `o` yields nothing. -/
 def NeutralizeIdempotent : Prop :=
   ∀ (m o : Mol) (L : Labels) (comps : List (List Nat)) (ds as changed : List Nat),
-    (graphOfMol m).WF = true → (∀ p ∈ baseStripped, Props.C07.BondSymm (bondOk p m L)) →
+    (graphOfMol m).WF = true → (∀ p ∈ baseStripped, BondSymm (bondOk p m L)) →
     matchFirstAtoms acidStripped m L comps = some ds → matchFirstAtoms baseStripped m L comps = some as →
     neutralizeCheck m ds as changed (some o) = true →
     ∀ r, neutralizeModel true o L comps = some r → r.2.2 = .nothing
@@ -345,7 +345,7 @@ def NeutralizeIdempotent : Prop :=
     whenever its matcher runs. Excluded: salts with more donors than acceptors, where donors remain and deprotonating an
     `[NH+]–[O-]` zwitterion can create a new acceptor (Findings / known finding). -/
 theorem neutralize_idempotent_partial (m o : Mol) (L : Labels) (comps : List (List Nat)) (ds as as' : List Nat)
-    (hwf : (graphOfMol m).WF = true) (hsym : ∀ p ∈ baseStripped, Props.C07.BondSymm (bondOk p m L))
+    (hwf : (graphOfMol m).WF = true) (hsym : ∀ p ∈ baseStripped, BondSymm (bondOk p m L))
     (hd : matchFirstAtoms acidStripped m L comps = some ds) (ha : matchFirstAtoms baseStripped m L comps = some as)
     (hsub : ∀ x ∈ as', x ∈ as) (hnd : as'.Nodup) (ho : neutralizeWith m ds as' = some o) :
     matchFirstAtoms acidStripped o L comps = some [] ∧
@@ -365,7 +365,7 @@ theorem neutralize_idempotent_partial (m o : Mol) (L : Labels) (comps : List (Li
 
 /-- the balanced case as the driver runs it: an `exact` result of `neutralizeModel true` is never changed by a second call -/
 theorem neutralize_exact_idempotent (m o : Mol) (L : Labels) (comps : List (List Nat)) (ds as ch : List Nat)
-    (hwf : (graphOfMol m).WF = true) (hsym : ∀ p ∈ baseStripped, Props.C07.BondSymm (bondOk p m L))
+    (hwf : (graphOfMol m).WF = true) (hsym : ∀ p ∈ baseStripped, BondSymm (bondOk p m L))
     (h : neutralizeModel true m L comps = some (ds, as, .exact o ch)) :
     ∀ r, neutralizeModel true o L comps = some r → r.2.2 = .nothing := by
   unfold neutralizeModel at h
@@ -401,7 +401,7 @@ def nh4clLabels : Labels := ⟨[(1, ⟨0, 1, 0, []⟩), (2, ⟨0, 1, 0, []⟩)],
 
 /-- the hypotheses of `neutralize_exact_idempotent` / `neutralize_idempotent_partial` are satisfiable by a salt with something
     to do: `[NH4+].[Cl-]` (donor 1, acceptor 2) is neutralised to `N.Cl` by the model the driver runs -/
-example : (graphOfMol nh4cl).WF = true ∧ (∀ p ∈ baseStripped, Props.C07.BondSymm (bondOk p nh4cl nh4clLabels)) ∧
+example : (graphOfMol nh4cl).WF = true ∧ (∀ p ∈ baseStripped, BondSymm (bondOk p nh4cl nh4clLabels)) ∧
     ∃ o, neutralizeModel true nh4cl nh4clLabels [[1], [2]] = some ([1], [2], .exact o [1, 2]) ∧ netCharge o = 0 ∧
       (o.atom? 1).map (·.charge) = some 0 := by
   refine ⟨by decide, ?_,
@@ -413,6 +413,29 @@ example : (graphOfMol nh4cl).WF = true ∧ (∀ p ∈ baseStripped, Props.C07.Bo
     simp only [Mol.bond?, Mol.nbrs, nh4cl, List.lookup]
     split <;> (try split) <;> simp
   simp [bondOk, hb]
+
+/-- the same from **decidable** hypotheses only: a well-formed molecule (`Mol.WF`: one shared bond object per pair), a well-formed
+    graph and ring flags cached for both directions give the direction-independent bond test C07 asks for (`bondOk_symm`, with
+    the table fact that every regenerated base pattern stores its bonds symmetrically) -/
+theorem neutralize_exact_idempotent_wf (m o : Mol) (L : Labels) (comps : List (List Nat)) (ds as ch : List Nat)
+    (hm : m.WF = true) (hg : (graphOfMol m).WF = true) (hl : ringSymm L = true)
+    (h : neutralizeModel true m L comps = some (ds, as, .exact o ch)) :
+    ∀ r, neutralizeModel true o L comps = some r → r.2.2 = .nothing :=
+  neutralize_exact_idempotent m o L comps ds as ch hg
+    (fun p hp => bondOk_symm p m L (baseStripped_patSymm p hp) hm hl) h
+
+/-- glycine zwitterion `[NH3+]CC([O-])=O` with its cached labels: a bonded molecule meeting every hypothesis; the model finds
+    donor 1 and acceptor 4 through the real multi-atom carboxylate pattern -/
+def glyZ : Mol :=
+  ⟨[(1, { z := 7, charge := 1, implH := some 3 }), (2, { z := 6, implH := some 2 }), (3, { z := 6, implH := some 0 }),
+    (4, { z := 8, charge := -1, implH := some 0 }), (5, { z := 8, implH := some 0 })],
+   [(1, [(2, { order := 1 })]), (2, [(1, { order := 1 }), (3, { order := 1 })]),
+    (3, [(2, { order := 1 }), (4, { order := 1 }), (5, { order := 2 })]), (4, [(3, { order := 1 })]), (5, [(3, { order := 2 })])]⟩
+def glyL : Labels := ⟨[(1, ⟨1, 1, 0, []⟩), (2, ⟨2, 1, 1, []⟩), (3, ⟨3, 2, 2, []⟩), (4, ⟨1, 1, 0, []⟩), (5, ⟨1, 2, 0, []⟩)], []⟩
+
+example : glyZ.WF = true ∧ ringSymm glyL = true ∧ (graphOfMol glyZ).WF = true := by decide
+
+example : (neutralizeModel true glyZ glyL [[1, 2, 3, 4, 5]]).map (fun r => (r.1, r.2.1)) = some ([1], [4]) := by decide +kernel
 
 /-! ## `standardize_charges` (`standardizeCharges`: what the driver's `CHG` request runs) -/
 
